@@ -37,6 +37,247 @@ theorem ov_idem (r : Option Int) (s : Int) : ov r (ov r s) = ov r s := by
   | some x => by_cases h : x = 0 <;> simp [h]
 
 
+/-! ### insertion-ordered dicts with overwrite: `upsert`, and "the last entry for a key" -/
+
+/-- the dict after the stores `m[x.1] = x.2` for `x` in `l`, in order -/
+def upsertAll {κ α : Type} [DecidableEq κ] : List (κ × α) → List (κ × α) → List (κ × α)
+  | m, [] => m
+  | m, x :: t => upsertAll (upsert x.1 x.2 m) t
+
+theorem keys_upsert {κ α : Type} [DecidableEq κ] (k : κ) (v : α) (m : List (κ × α)) :
+    (upsert k v m).map Prod.fst =
+      if k ∈ m.map Prod.fst then m.map Prod.fst else m.map Prod.fst ++ [k] := by
+  induction m with
+  | nil => simp [upsert]
+  | cons y t ih =>
+    obtain ⟨k', v'⟩ := y
+    by_cases h : k' = k
+    · subst h; simp [upsert]
+    · have h' : ¬ k = k' := fun e => h e.symm
+      simp only [upsert, h, if_false, List.map_cons, ih, List.mem_cons, h', false_or]
+      by_cases hk : k ∈ t.map Prod.fst <;> simp [hk]
+
+theorem nodup_keys_upsert {κ α : Type} [DecidableEq κ] (k : κ) (v : α) (m : List (κ × α))
+    (h : (m.map Prod.fst).Nodup) : ((upsert k v m).map Prod.fst).Nodup := by
+  rw [keys_upsert]
+  by_cases hk : k ∈ m.map Prod.fst
+  · simp only [hk, if_true]; exact h
+  · simp only [hk, if_false]
+    rw [List.nodup_append]
+    refine ⟨h, by simp, ?_⟩
+    intro a ha b hb
+    simp only [List.mem_singleton] at hb
+    subst hb; intro e; subst e; exact hk ha
+
+theorem mem_upsert {κ α : Type} [DecidableEq κ] (k : κ) (v : α) (m : List (κ × α))
+    (h : (m.map Prod.fst).Nodup) (x : κ × α) :
+    x ∈ upsert k v m ↔ x = (k, v) ∨ (x ∈ m ∧ x.1 ≠ k) := by
+  induction m with
+  | nil => simp [upsert]
+  | cons y t ih =>
+    obtain ⟨k', v'⟩ := y
+    simp only [List.map_cons, List.nodup_cons] at h
+    by_cases hk : k' = k
+    · subst hk
+      simp only [upsert, if_true, List.mem_cons]
+      constructor
+      · rintro (rfl | hx)
+        · exact Or.inl rfl
+        · refine Or.inr ⟨Or.inr hx, ?_⟩
+          intro e; exact h.1 (e ▸ List.mem_map.2 ⟨x, hx, rfl⟩)
+      · rintro (rfl | ⟨rfl | hx, hne⟩)
+        · exact Or.inl rfl
+        · exact absurd rfl hne
+        · exact Or.inr hx
+    · simp only [upsert, hk, if_false, List.mem_cons, ih h.2]
+      constructor
+      · rintro (rfl | rfl | ⟨hx, hne⟩)
+        · exact Or.inr ⟨Or.inl rfl, hk⟩
+        · exact Or.inl rfl
+        · exact Or.inr ⟨Or.inr hx, hne⟩
+      · rintro (rfl | ⟨rfl | hx, hne⟩)
+        · exact Or.inr (Or.inl rfl)
+        · exact Or.inl rfl
+        · exact Or.inr (Or.inr ⟨hx, hne⟩)
+
+theorem nodup_keys_upsertAll {κ α : Type} [DecidableEq κ] (l m : List (κ × α))
+    (h : (m.map Prod.fst).Nodup) : ((upsertAll m l).map Prod.fst).Nodup := by
+  induction l generalizing m with
+  | nil => exact h
+  | cons x t ih => exact ih _ (nodup_keys_upsert _ _ _ h)
+
+theorem keys_upsertAll {κ α : Type} [DecidableEq κ] (l m : List (κ × α)) (k : κ) :
+    k ∈ (upsertAll m l).map Prod.fst ↔ k ∈ m.map Prod.fst ∨ k ∈ l.map Prod.fst := by
+  induction l generalizing m with
+  | nil => simp [upsertAll]
+  | cons x t ih =>
+    simp only [upsertAll, ih, keys_upsert, List.map_cons, List.mem_cons]
+    by_cases hk : x.1 ∈ m.map Prod.fst
+    · simp only [hk, if_true]
+      constructor
+      · rintro (h | h)
+        · exact Or.inl h
+        · exact Or.inr (Or.inr h)
+      · rintro (h | rfl | h)
+        · exact Or.inl h
+        · exact Or.inl hk
+        · exact Or.inr h
+    · simp only [hk, if_false, List.mem_append, List.mem_singleton]
+      constructor
+      · rintro ((h | h) | h)
+        · exact Or.inl h
+        · exact Or.inr (Or.inl h)
+        · exact Or.inr (Or.inr h)
+      · rintro (h | h | h)
+        · exact Or.inl (Or.inl h)
+        · exact Or.inl (Or.inr h)
+        · exact Or.inr h
+
+/-- `x` is the last element of `l` with its key -/
+def LastBy {α κ : Type} (key : α → κ) : List α → α → Prop
+  | [], _ => False
+  | y :: t, x => (x = y ∧ ∀ z ∈ t, key z ≠ key x) ∨ LastBy key t x
+
+theorem LastBy.mem {α κ : Type} {key : α → κ} {l : List α} {a : α} (h : LastBy key l a) : a ∈ l := by
+  induction l with
+  | nil => exact h.elim
+  | cons y t ih =>
+    rcases h with ⟨rfl, _⟩ | h
+    · exact List.mem_cons_self ..
+    · exact List.mem_cons_of_mem _ (ih h)
+
+theorem lastBy_split {α κ : Type} (key : α → κ) (l : List α) (a : α) :
+    LastBy key l a ↔ ∃ l1 l2, l = l1 ++ a :: l2 ∧ ∀ z ∈ l2, key z ≠ key a := by
+  induction l with
+  | nil => simp [LastBy]
+  | cons y t ih =>
+    simp only [LastBy, ih]
+    constructor
+    · rintro (⟨rfl, h⟩ | ⟨l1, l2, rfl, h⟩)
+      · exact ⟨[], t, rfl, h⟩
+      · exact ⟨y :: l1, l2, rfl, h⟩
+    · rintro ⟨l1, l2, he, h⟩
+      cases l1 with
+      | nil =>
+        simp only [List.nil_append, List.cons.injEq] at he
+        obtain ⟨rfl, rfl⟩ := he
+        exact Or.inl ⟨rfl, h⟩
+      | cons y' l1' =>
+        simp only [List.cons_append, List.cons.injEq] at he
+        obtain ⟨rfl, rfl⟩ := he
+        exact Or.inr ⟨l1', l2, rfl, h⟩
+
+/-- every key that occurs has a last entry -/
+theorem lastBy_exists {α κ : Type} (key : α → κ) (l : List α) (a : α) (h : a ∈ l) :
+    ∃ b, LastBy key l b ∧ key b = key a := by
+  induction l generalizing a with
+  | nil => cases h
+  | cons y t ih =>
+    by_cases hex : ∃ z ∈ t, key z = key a
+    · obtain ⟨z, hz, hk⟩ := hex
+      obtain ⟨b, hb, hkb⟩ := ih z hz
+      exact ⟨b, Or.inr hb, hkb.trans hk⟩
+    · rcases List.mem_cons.1 h with rfl | h'
+      · exact ⟨a, Or.inl ⟨rfl, fun z hz e => hex ⟨z, hz, e⟩⟩, rfl⟩
+      · exact absurd ⟨a, h', rfl⟩ hex
+
+/-- … and only one -/
+theorem lastBy_unique {α κ : Type} (key : α → κ) (l : List α) (a b : α)
+    (ha : LastBy key l a) (hb : LastBy key l b) (hk : key a = key b) : a = b := by
+  induction l with
+  | nil => exact ha.elim
+  | cons y t ih =>
+    rcases ha with ⟨rfl, h1⟩ | ha <;> rcases hb with ⟨rfl, h2⟩ | hb
+    · rfl
+    · exact absurd hk.symm (h1 b hb.mem)
+    · exact absurd hk (h2 a ha.mem)
+    · exact ih ha hb
+
+theorem lastBy_of_nodup {α κ : Type} (key : α → κ) (l : List α) (h : (l.map key).Nodup) (a : α) :
+    LastBy key l a ↔ a ∈ l := by
+  constructor
+  · exact LastBy.mem
+  · intro ha
+    induction l with
+    | nil => cases ha
+    | cons y t ih =>
+      simp only [List.map_cons, List.nodup_cons, List.mem_map, not_exists, not_and] at h
+      rcases List.mem_cons.1 ha with rfl | ha'
+      · exact Or.inl ⟨rfl, fun z hz => h.1 z hz⟩
+      · exact Or.inr (ih h.2 ha')
+
+theorem LastBy.filter {α κ : Type} {key : α → κ} {l : List α} {a : α} (h : LastBy key l a)
+    (p : α → Bool) (hp : p a = true) : LastBy key (l.filter p) a := by
+  induction l with
+  | nil => exact h.elim
+  | cons y t ih =>
+    rcases h with ⟨rfl, h1⟩ | h
+    · simp only [List.filter_cons, hp, if_true]
+      exact Or.inl ⟨rfl, fun z hz => h1 z (List.mem_filter.1 hz).1⟩
+    · by_cases hy : p y = true
+      · simp only [List.filter_cons, hy, if_true]; exact Or.inr (ih h)
+      · simp only [List.filter_cons, hy]; exact ih h
+
+/-- the dict built by the stores `d[key a] = f a`, `a` in `l`, holds exactly the last entry of every key -/
+theorem mem_upsertAll_map {α κ β : Type} [DecidableEq κ] (key : α → κ) (f : α → β) (l : List α)
+    (m : List (κ × β)) (hm : (m.map Prod.fst).Nodup) (x : κ × β) :
+    x ∈ upsertAll m (l.map fun a => (key a, f a)) ↔
+      (∃ a, LastBy key l a ∧ x = (key a, f a)) ∨ (x ∈ m ∧ ∀ z ∈ l, key z ≠ x.1) := by
+  induction l generalizing m with
+  | nil => simp [upsertAll, LastBy]
+  | cons y t ih =>
+    simp only [List.map_cons, upsertAll]
+    rw [ih _ (nodup_keys_upsert _ _ _ hm), mem_upsert _ _ _ hm]
+    constructor
+    · rintro (⟨a, ha, rfl⟩ | ⟨rfl | ⟨hx, hne⟩, hall⟩)
+      · exact Or.inl ⟨a, Or.inr ha, rfl⟩
+      · exact Or.inl ⟨y, Or.inl ⟨rfl, hall⟩, rfl⟩
+      · refine Or.inr ⟨hx, ?_⟩
+        intro z hz
+        rcases List.mem_cons.1 hz with rfl | hz'
+        · exact fun e => hne e.symm
+        · exact hall z hz'
+    · rintro (⟨a, ⟨rfl, hl⟩ | ha, rfl⟩ | ⟨hx, hall⟩)
+      · exact Or.inr ⟨Or.inl rfl, hl⟩
+      · exact Or.inl ⟨a, ha, rfl⟩
+      · exact Or.inr ⟨Or.inr ⟨hx, fun e => hall y (List.mem_cons_self ..) e.symm⟩,
+          fun z hz => hall z (List.mem_cons_of_mem _ hz)⟩
+
+/-- without repeated keys the stores are plain appends -/
+theorem upsertAll_nodup {κ α : Type} [DecidableEq κ] (l m : List (κ × α))
+    (h : ((m ++ l).map Prod.fst).Nodup) : upsertAll m l = m ++ l := by
+  induction l generalizing m with
+  | nil => simp [upsertAll]
+  | cons x t ih =>
+    have hx : x.1 ∉ m.map Prod.fst := by
+      intro hmem
+      rw [List.map_append, List.nodup_append] at h
+      exact h.2.2 _ hmem _ (by simp) rfl
+    have hu : upsert x.1 x.2 m = m ++ [x] := by
+      clear ih h
+      induction m with
+      | nil => rfl
+      | cons y m' ihm =>
+        simp only [List.map_cons, List.mem_cons, not_or] at hx
+        have : ¬ y.1 = x.1 := fun e => hx.1 e.symm
+        simp [upsert, this, ihm hx.2]
+    simp only [upsertAll, hu]
+    rw [ih (m ++ [x]) (by simpa [List.append_assoc] using h)]
+    simp
+
+/-- in a dict every key has one value -/
+theorem value_unique_of_nodup_keys {κ α : Type} (l : List (κ × α)) (h : (l.map Prod.fst).Nodup)
+    (k : κ) (v w : α) (hv : (k, v) ∈ l) (hw : (k, w) ∈ l) : v = w := by
+  induction l with
+  | nil => cases hv
+  | cons y t ih =>
+    simp only [List.map_cons, List.nodup_cons, List.mem_map, not_exists, not_and] at h
+    rcases List.mem_cons.1 hv with rfl | hv' <;> rcases List.mem_cons.1 hw with hw' | hw'
+    · exact (Prod.mk.inj hw').2.symm
+    · exact absurd rfl (h.1 (k, w) hw')
+    · subst hw'; exact absurd rfl (h.1 (k, v) hv')
+    · exact ih h.2 hv' hw'
+
 /-! ### the per-query loop, entry by entry -/
 
 /-- the query gets a result entry (`"value" in query or expired`) -/
@@ -45,8 +286,13 @@ def answered (expired : Bool) (q : Query) : Bool := q.hasValue || expired
 /-- `query.get("value")` -/
 def qvalue (q : Query) : Option Val := if q.hasValue then q.value else none
 
-/-- the setter is called: `value is not None [and not expired]` -/
-def runs (fixed expired : Bool) (q : Query) : Bool := (qvalue q).isSome && (!fixed || !expired)
+/-- the setter is called: the entry names a characteristic and `value is not None [and not expired]` -/
+def runs (fixed expired : Bool) (T : Topo) (q : Query) : Bool :=
+  T.known q.id && ((qvalue q).isSome && (!fixed || !expired))
+
+/-- the entry is recorded for the service / accessory callback pass -/
+def collected (fixed expired : Bool) (T : Topo) (q : Query) : Bool :=
+  answered expired q && (T.known q.id && !(fixed && expired))
 
 /-- status and returned value of `_wrap_char_setter` (independent of the state) -/
 def charOutcome (q : Query) : Int × Option Val :=
@@ -75,12 +321,13 @@ def storeAll (vals : CharId → Val) : List Query → CharId → Val
 
 /-- the value recorded for the service / accessory callbacks: the normalised value after a
     successful setter (C10b), else `query.get("value")` -/
-def upValue (fixed nu expired : Bool) (q : Query) : Option Val :=
-  if nu && runs fixed expired q && (charOutcome q).1 == OK then q.valid else qvalue q
+def upValue (fixed nu expired : Bool) (T : Topo) (q : Query) : Option Val :=
+  if nu && runs fixed expired T q && (charOutcome q).1 == OK then q.valid else qvalue q
 
 /-- the result entry written by the per-query loop -/
-def res0 (fixed expired : Bool) (q : Query) : Res :=
-  let o : Int × Option Val := if runs fixed expired q then charOutcome q else (INVALID, none)
+def res0 (fixed expired : Bool) (T : Topo) (q : Query) : Res :=
+  if !T.known q.id then ⟨NOEXIST, none⟩ else
+  let o : Int × Option Val := if runs fixed expired T q then charOutcome q else (INVALID, none)
   if o.2.isSome && q.wr then ⟨o.1, o.2⟩ else ⟨o.1, none⟩
 
 theorem wrapCharSetter_eq (q : Query) (st : CharSt) :
@@ -91,55 +338,59 @@ theorem wrapCharSetter_eq (q : Query) (st : CharSt) :
   | none => simp
   | some n => cases hc : q.cb <;> simp
 
-theorem step1_eq (fixed nu expired : Bool) (s : L1) (q : Query) :
-    step1 fixed nu expired s q =
+theorem step1_eq (fixed nu expired : Bool) (T : Topo) (s : L1) (q : Query) :
+    step1 fixed nu expired T s q =
       if answered expired q then
-        { st := if runs fixed expired q then ⟨store s.st.vals q, s.st.log ++ (called q).toList⟩ else s.st
-          results := s.results ++ [(q.id, res0 fixed expired q)]
-          updates := if fixed && expired then s.updates else s.updates ++ [(q.id, upValue fixed nu expired q)] }
+        { st := if runs fixed expired T q then ⟨store s.st.vals q, s.st.log ++ (called q).toList⟩ else s.st
+          results := upsert q.id (res0 fixed expired T q) s.results
+          updates := if collected fixed expired T q then upsert q.id (upValue fixed nu expired T q) s.updates
+                     else s.updates }
       else s := by
-  unfold step1 answered res0 upValue runs qvalue
-  by_cases h1 : q.hasValue <;> by_cases h2 : expired <;> by_cases h3 : fixed <;>
-    cases hv : q.value <;> simp [h1, h2, h3, hv, wrapCharSetter_eq]
+  unfold step1 answered res0 upValue runs collected qvalue answered
+  by_cases h0 : T.known q.id <;> by_cases h1 : q.hasValue <;> by_cases h2 : expired <;> by_cases h3 : fixed <;>
+    cases hv : q.value <;> simp [h0, h1, h2, h3, hv, wrapCharSetter_eq]
 
-theorem loop1_results (fixed nu expired : Bool) (qs : List Query) (s : L1) :
-    (loop1 fixed nu expired s qs).results =
-      s.results ++ (qs.filter (answered expired)).map (fun q => (q.id, res0 fixed expired q)) := by
+theorem loop1_results (fixed nu expired : Bool) (T : Topo) (qs : List Query) (s : L1) :
+    (loop1 fixed nu expired T s qs).results =
+      upsertAll s.results ((qs.filter (answered expired)).map (fun q => (q.id, res0 fixed expired T q))) := by
+  induction qs generalizing s with
+  | nil => simp [loop1, upsertAll]
+  | cons q qs ih =>
+    simp only [loop1, ih, step1_eq]
+    by_cases h : answered expired q <;> simp [h, List.filter_cons, upsertAll]
+
+theorem loop1_updates (fixed nu expired : Bool) (T : Topo) (qs : List Query) (s : L1) :
+    (loop1 fixed nu expired T s qs).updates =
+      upsertAll s.updates
+        ((qs.filter (collected fixed expired T)).map (fun q => (q.id, upValue fixed nu expired T q))) := by
+  induction qs generalizing s with
+  | nil => simp [loop1, upsertAll]
+  | cons q qs ih =>
+    simp only [loop1, ih, step1_eq]
+    by_cases h : answered expired q
+    · by_cases h2 : collected fixed expired T q <;> simp [h, h2, List.filter_cons, upsertAll]
+    · have h2 : collected fixed expired T q = false := by simp [collected, h]
+      simp [h, h2, List.filter_cons]
+
+theorem loop1_log (fixed nu expired : Bool) (T : Topo) (qs : List Query) (s : L1) :
+    (loop1 fixed nu expired T s qs).st.log =
+      s.st.log ++ ((qs.filter (fun q => answered expired q && runs fixed expired T q)).filterMap called) := by
   induction qs generalizing s with
   | nil => simp [loop1]
   | cons q qs ih =>
     simp only [loop1, ih, step1_eq]
-    by_cases h : answered expired q <;> simp [h, List.filter_cons]
-
-theorem loop1_updates (fixed nu expired : Bool) (qs : List Query) (s : L1) :
-    (loop1 fixed nu expired s qs).updates =
-      s.updates ++ (if fixed && expired then [] else
-        (qs.filter (answered expired)).map (fun q => (q.id, upValue fixed nu expired q))) := by
-  induction qs generalizing s with
-  | nil => simp [loop1]
-  | cons q qs ih =>
-    simp only [loop1, ih, step1_eq]
-    by_cases h : answered expired q <;> by_cases h2 : (fixed && expired) = true <;> simp [h, h2, List.filter_cons]
-
-theorem loop1_log (fixed nu expired : Bool) (qs : List Query) (s : L1) :
-    (loop1 fixed nu expired s qs).st.log =
-      s.st.log ++ ((qs.filter (fun q => answered expired q && runs fixed expired q)).filterMap called) := by
-  induction qs generalizing s with
-  | nil => simp [loop1]
-  | cons q qs ih =>
-    simp only [loop1, ih, step1_eq]
-    by_cases h : answered expired q <;> by_cases h2 : runs fixed expired q <;>
+    by_cases h : answered expired q <;> by_cases h2 : runs fixed expired T q <;>
       simp [h, h2, List.filter_cons]
     cases hc : called q <;> simp [hc, List.filterMap_cons]
 
-theorem loop1_vals (fixed nu expired : Bool) (qs : List Query) (s : L1) :
-    (loop1 fixed nu expired s qs).st.vals =
-      storeAll s.st.vals (qs.filter (fun q => answered expired q && runs fixed expired q)) := by
+theorem loop1_vals (fixed nu expired : Bool) (T : Topo) (qs : List Query) (s : L1) :
+    (loop1 fixed nu expired T s qs).st.vals =
+      storeAll s.st.vals (qs.filter (fun q => answered expired q && runs fixed expired T q)) := by
   induction qs generalizing s with
   | nil => simp [loop1, storeAll]
   | cons q qs ih =>
     simp only [loop1, ih, step1_eq]
-    by_cases h : answered expired q <;> by_cases h2 : runs fixed expired q <;>
+    by_cases h : answered expired q <;> by_cases h2 : runs fixed expired T q <;>
       simp [h, h2, List.filter_cons, storeAll]
 
 
@@ -166,6 +417,10 @@ theorem setSt_id (results : List (CharId × Res)) : setSt (fun _ st => st) resul
   unfold setSt; induction results with
   | nil => rfl
   | cons x t ih => simp [List.map_cons, ih]
+
+theorem setSt_keys (f : CharId → Int → Int) (results : List (CharId × Res)) :
+    (setSt f results).map Prod.fst = results.map Prod.fst := by
+  unfold setSt; simp [List.map_map, Function.comp_def]
 
 theorem setSt_setSt (f g : CharId → Int → Int) (results : List (CharId × Res)) :
     setSt g (setSt f results) = setSt (fun c st => g c (f c st)) results := by
@@ -323,74 +578,97 @@ theorem mem_assemble (results : List (CharId × Res)) (x : CharId × Res) :
   · rintro ⟨a, _, hx, _⟩; exact hx
   · intro hx; exact ⟨x.1.aid, ⟨x, hx, rfl⟩, hx, rfl⟩
 
+/-- the entry is the last one of the request that names its characteristic: the one whose result
+    `results[aid][iid]` holds when the loop is over -/
+def LastEntry (expired : Bool) (qs : List Query) (q : Query) : Prop :=
+  LastBy (fun q : Query => q.id) (qs.filter (answered expired)) q
+
 /-- the answer for one entry: a function of the entry, of the callbacks of its own service and
     accessory, and of the expiry decision only -/
 def entryRes (fixed expired : Bool) (T : Topo) (B : Behav) (q : Query) : Res :=
-  { res0 fixed expired q with
-    status := if fixed && expired then (res0 fixed expired q).status
-              else ov (override T B q.id) (res0 fixed expired q).status }
+  { res0 fixed expired T q with
+    status := if T.known q.id && !(fixed && expired)
+              then ov (override T B q.id) (res0 fixed expired T q).status
+              else (res0 fixed expired T q).status }
 
 /-- the updates collected by the per-query loop -/
-def upsOf (fixed nu expired : Bool) (qs : List Query) : List Upd :=
-  if fixed && expired then [] else (qs.filter (answered expired)).map (fun q => (q.id, upValue fixed nu expired q))
+def upsOf (fixed nu expired : Bool) (T : Topo) (qs : List Query) : List Upd :=
+  upsertAll [] ((qs.filter (collected fixed expired T)).map (fun q => (q.id, upValue fixed nu expired T q)))
 
-theorem setChars_updates (fixed nu : Bool) (expired : Bool) (vals : CharId → Val) (qs : List Query) :
-    (loop1 fixed nu expired ⟨⟨vals, []⟩, [], []⟩ qs).updates = upsOf fixed nu expired qs := by
+theorem setChars_updates (fixed nu : Bool) (T : Topo) (expired : Bool) (vals : CharId → Val) (qs : List Query) :
+    (loop1 fixed nu expired T ⟨⟨vals, []⟩, [], []⟩ qs).updates = upsOf fixed nu expired T qs := by
   simp [loop1_updates, upsOf]
 
-theorem mem_upsOf_keys (fixed nu expired : Bool) (qs : List Query) (c : CharId) :
-    c ∈ (upsOf fixed nu expired qs).map (·.1) ↔
-      (fixed && expired) = false ∧ ∃ q ∈ qs, answered expired q = true ∧ q.id = c := by
+theorem nodup_upsOf (fixed nu expired : Bool) (T : Topo) (qs : List Query) :
+    ((upsOf fixed nu expired T qs).map Prod.fst).Nodup :=
+  nodup_keys_upsertAll _ _ (by simp)
+
+theorem mem_upsOf_keys (fixed nu expired : Bool) (T : Topo) (qs : List Query) (c : CharId) :
+    c ∈ (upsOf fixed nu expired T qs).map (·.1) ↔
+      ∃ q ∈ qs, collected fixed expired T q = true ∧ q.id = c := by
   unfold upsOf
-  by_cases hfe : (fixed && expired) = true
-  · simp [hfe]
-  · simp only [hfe, Bool.false_eq_true, if_false, List.mem_map, List.mem_filter]
-    constructor
-    · rintro ⟨u, ⟨q, ⟨hq, ha⟩, rfl⟩, rfl⟩; exact ⟨by simpa using hfe, q, hq, ha, rfl⟩
-    · rintro ⟨_, q, hq, ha, rfl⟩; exact ⟨(q.id, upValue fixed nu expired q), ⟨q, ⟨hq, ha⟩, rfl⟩, rfl⟩
+  rw [keys_upsertAll]
+  simp only [List.map_nil, List.not_mem_nil, false_or, List.mem_map, List.mem_filter]
+  constructor
+  · rintro ⟨u, ⟨q, ⟨hq, hc⟩, rfl⟩, rfl⟩; exact ⟨q, hq, hc, rfl⟩
+  · rintro ⟨q, hq, hc, rfl⟩; exact ⟨_, ⟨q, ⟨hq, hc⟩, rfl⟩, rfl⟩
+
+/-- the collected updates hold, for every characteristic, the value recorded by the last entry for it -/
+theorem mem_upsOf (fixed nu expired : Bool) (T : Topo) (qs : List Query) (u : Upd) :
+    u ∈ upsOf fixed nu expired T qs ↔
+      ∃ q, LastBy (fun q : Query => q.id) (qs.filter (collected fixed expired T)) q ∧ u = (q.id, upValue fixed nu expired T q) := by
+  unfold upsOf
+  rw [mem_upsertAll_map (fun q : Query => q.id) (upValue fixed nu expired T) _ [] (by simp)]
+  simp
 
 theorem mem_chars (fixed nu : Bool) (T : Topo) (B : Behav) (expired : Bool) (vals : CharId → Val)
     (qs : List Query) (x : CharId × Res) :
     x ∈ (setChars fixed nu T B expired vals qs).chars ↔
-      ∃ q ∈ qs, answered expired q = true ∧ x = (q.id, entryRes fixed expired T B q) := by
+      ∃ q, LastEntry expired qs q ∧ x = (q.id, entryRes fixed expired T B q) := by
   have key : ∀ q ∈ qs, answered expired q = true →
-      (q.id, ({ res0 fixed expired q with
-        status := if q.id ∈ (upsOf fixed nu expired qs).map (·.1)
-                  then ov (override T B q.id) (res0 fixed expired q).status
-                  else (res0 fixed expired q).status } : Res)) = (q.id, entryRes fixed expired T B q) := by
+      (q.id, ({ res0 fixed expired T q with
+        status := if q.id ∈ (upsOf fixed nu expired T qs).map (·.1)
+                  then ov (override T B q.id) (res0 fixed expired T q).status
+                  else (res0 fixed expired T q).status } : Res)) = (q.id, entryRes fixed expired T B q) := by
     intro q hq ha
     unfold entryRes
-    by_cases hfe : (fixed && expired) = true
-    · have : ¬ q.id ∈ (upsOf fixed nu expired qs).map (·.1) := by
-        rw [mem_upsOf_keys]; simp [hfe]
-      simp only [this, hfe, if_true, if_false]
-    · have : q.id ∈ (upsOf fixed nu expired qs).map (·.1) := by
-        rw [mem_upsOf_keys]; exact ⟨by simpa using hfe, q, hq, ha, rfl⟩
-      simp only [this, hfe, Bool.false_eq_true, if_true, if_false]
+    by_cases hc : (T.known q.id && !(fixed && expired)) = true
+    · have : q.id ∈ (upsOf fixed nu expired T qs).map (·.1) := by
+        rw [mem_upsOf_keys]; exact ⟨q, hq, by unfold collected; rw [ha, hc]; rfl, rfl⟩
+      simp only [this, hc, if_true]
+    · have : ¬ q.id ∈ (upsOf fixed nu expired T qs).map (·.1) := by
+        rw [mem_upsOf_keys]
+        rintro ⟨q', _, hc', hid⟩
+        apply hc
+        simp only [collected, Bool.and_eq_true] at hc'
+        rw [← hid]; simp [hc'.2]
+      simp only [this, hc, if_false, Bool.false_eq_true]
   unfold setChars
   rw [mem_assemble, pass2_eq, setChars_updates, loop1_results]
-  simp only [List.nil_append, setSt]
+  simp only [setSt]
   constructor
   · intro hx
     obtain ⟨cr, hcr, rfl⟩ := List.mem_map.1 hx
-    obtain ⟨q, hq, rfl⟩ := List.mem_map.1 hcr
-    obtain ⟨hq, ha⟩ := List.mem_filter.1 hq
-    exact ⟨q, hq, ha, key q hq ha⟩
-  · rintro ⟨q, hq, ha, rfl⟩
-    refine List.mem_map.2 ⟨(q.id, res0 fixed expired q), List.mem_map.2 ⟨q, List.mem_filter.2 ⟨hq, ha⟩, rfl⟩, ?_⟩
-    exact key q hq ha
+    rcases (mem_upsertAll_map (fun q : Query => q.id) (res0 fixed expired T) _ [] (by simp) cr).1 hcr with ⟨q, hl, rfl⟩ | ⟨h, _⟩
+    · have hm := List.mem_filter.1 hl.mem
+      exact ⟨q, hl, key q hm.1 hm.2⟩
+    · cases h
+  · rintro ⟨q, hl, rfl⟩
+    have hm := List.mem_filter.1 hl.mem
+    exact List.mem_map.2 ⟨(q.id, res0 fixed expired T q),
+      (mem_upsertAll_map (fun q : Query => q.id) (res0 fixed expired T) _ [] (by simp) _).2 (Or.inl ⟨q, hl, rfl⟩), key q hm.1 hm.2⟩
 
 theorem setChars_vals (fixed nu : Bool) (T : Topo) (B : Behav) (expired : Bool) (vals : CharId → Val)
     (qs : List Query) :
     (setChars fixed nu T B expired vals qs).vals =
-      storeAll vals (qs.filter (fun q => answered expired q && runs fixed expired q)) := by
+      storeAll vals (qs.filter (fun q => answered expired q && runs fixed expired T q)) := by
   simp [setChars, loop1_vals]
 
 theorem setChars_log (fixed nu : Bool) (T : Topo) (B : Behav) (expired : Bool) (vals : CharId → Val)
     (qs : List Query) :
     (setChars fixed nu T B expired vals qs).log =
-      (qs.filter (fun q => answered expired q && runs fixed expired q)).filterMap called ++
-        (accsOf (upsOf fixed nu expired qs)).flatMap (passEvs T (upsOf fixed nu expired qs)) := by
+      (qs.filter (fun q => answered expired q && runs fixed expired T q)).filterMap called ++
+        (accsOf (upsOf fixed nu expired T qs)).flatMap (passEvs T (upsOf fixed nu expired T qs)) := by
   simp [setChars, pass2_eq, loop1_log, setChars_updates]
 
 theorem setChars_body (fixed nu : Bool) (T : Topo) (B : Behav) (expired : Bool) (vals : CharId → Val)
@@ -398,6 +676,17 @@ theorem setChars_body (fixed nu : Bool) (T : Topo) (B : Behav) (expired : Bool) 
     (setChars fixed nu T B expired vals qs).body =
       if nonempty (setChars fixed nu T B expired vals qs).chars
       then some (setChars fixed nu T B expired vals qs).chars else none := rfl
+
+/-- the keys of the answer: one result per characteristic named by an answered entry -/
+theorem keys_chars_pre (fixed nu : Bool) (T : Topo) (B : Behav) (expired : Bool) (vals : CharId → Val)
+    (qs : List Query) :
+    ∃ results : List (CharId × Res), (setChars fixed nu T B expired vals qs).chars = assemble results ∧
+      (results.map Prod.fst).Nodup := by
+  refine ⟨_, rfl, ?_⟩
+  rw [pass2_eq]
+  simp only
+  rw [setSt_keys, loop1_results]
+  exact nodup_keys_upsertAll _ _ (by simp)
 
 
 /-! ### reading the callback log -/
@@ -667,16 +956,35 @@ theorem cbResult_ok {b : Bool} (h : some (cbResult b) = none ∨ some (cbResult 
 /-- a refused timed write (repaired code): nothing runs, nothing is collected -/
 theorem expired_facts (nu : Bool) (T : Topo) (B : Behav) (vals : CharId → Val) (qs : List Query) :
     (setChars true nu T B true vals qs).vals = vals ∧ (setChars true nu T B true vals qs).log = [] ∧
-    ∀ x, x ∈ (setChars true nu T B true vals qs).chars ↔ ∃ q ∈ qs, x = (q.id, ⟨INVALID, none⟩) := by
+    ∀ x, x ∈ (setChars true nu T B true vals qs).chars ↔
+      ∃ q ∈ qs, x = (q.id, ⟨if T.known q.id then INVALID else NOEXIST, none⟩) := by
+  have hres : ∀ q : Query, entryRes true true T B q = ⟨if T.known q.id then INVALID else NOEXIST, none⟩ := by
+    intro q
+    by_cases hk : T.known q.id <;> simp [entryRes, res0, runs, hk]
+  have hfil : qs.filter (answered true) = qs := by
+    rw [List.filter_eq_self]; intro q _; simp [answered]
   refine ⟨?_, ?_, ?_⟩
   · rw [setChars_vals]
-    have : qs.filter (fun q => answered true q && runs true true q) = [] := by
+    have : qs.filter (fun q => answered true q && runs true true T q) = [] := by
       rw [List.filter_eq_nil_iff]; intro q _; simp [runs]
     rw [this]; rfl
-  · rw [setChars_log]; simp [runs, upsOf, accsOf, firsts]
+  · rw [setChars_log]
+    have h1 : qs.filter (fun q => answered true q && runs true true T q) = [] := by
+      rw [List.filter_eq_nil_iff]; intro q _; simp [runs]
+    have h2 : qs.filter (collected true true T) = [] := by
+      rw [List.filter_eq_nil_iff]; intro q _; simp [collected]
+    simp [h1, upsOf, h2, upsertAll, accsOf, firsts]
   · intro x
     rw [mem_chars]
-    simp [answered, entryRes, res0, runs]
+    unfold LastEntry
+    rw [hfil]
+    constructor
+    · rintro ⟨q, hl, rfl⟩; exact ⟨q, hl.mem, by rw [hres]⟩
+    · rintro ⟨q, hq, rfl⟩
+      obtain ⟨b, hb, hk⟩ := lastBy_exists (fun q : Query => q.id) qs q hq
+      refine ⟨b, hb, ?_⟩
+      have hk' : b.id = q.id := hk
+      rw [hres, hk']
 
 theorem storeAll_unchanged (qs : List Query) (vals : CharId → Val) (c : CharId)
     (h : ∀ p ∈ qs, p.id = c → p.valid = none) : storeAll vals qs c = vals c := by
@@ -693,20 +1001,70 @@ theorem storeAll_unchanged (qs : List Query) (vals : CharId → Val) (c : CharId
       simp [Ne.symm this]
 
 /-- a write-response value is due for the entry -/
-def WrDue (fixed expired : Bool) (q : Query) : Prop :=
-  runs fixed expired q = true ∧ q.wr = true ∧ ∃ n r, q.valid = some n ∧ q.cb = CharCb.returns (some r)
+def WrDue (fixed expired : Bool) (T : Topo) (q : Query) : Prop :=
+  runs fixed expired T q = true ∧ q.wr = true ∧ ∃ n r, q.valid = some n ∧ q.cb = CharCb.returns (some r)
 
-theorem res0_value_none (fixed expired : Bool) (q : Query) :
-    (res0 fixed expired q).value = none ↔ ¬ WrDue fixed expired q := by
+theorem res0_value_none (fixed expired : Bool) (T : Topo) (q : Query) :
+    (res0 fixed expired T q).value = none ↔ ¬ WrDue fixed expired T q := by
   unfold res0 WrDue charOutcome
-  by_cases hr : runs fixed expired q = true <;> by_cases hw : q.wr = true <;> simp [hr, hw]
-  cases hv : q.valid with
-  | none => simp
-  | some n =>
-    cases hc : q.cb with
-    | absent => simp
-    | raises => simp
-    | returns r => cases r <;> simp
+  by_cases hk : T.known q.id = true
+  · by_cases hr : runs fixed expired T q = true <;> by_cases hw : q.wr = true <;> simp [hk, hr, hw]
+    cases hv : q.valid with
+    | none => simp
+    | some n =>
+      cases hc : q.cb with
+      | absent => simp
+      | raises => simp
+      | returns r => cases r <;> simp
+  · have hr : runs fixed expired T q = false := by simp [runs, hk]
+    simp [hk, hr]
+
+theorem lastEntry_of_distinct {qs : List Query} (hd : Distinct qs) (expired : Bool) (q : Query) :
+    LastEntry expired qs q ↔ q ∈ qs ∧ answered expired q = true := by
+  unfold LastEntry
+  rw [lastBy_of_nodup _ _ (hd.filter _), List.mem_filter]
+
+theorem collected_filter (fixed expired : Bool) (T : Topo) (qs : List Query) :
+    qs.filter (collected fixed expired T) =
+      (qs.filter (answered expired)).filter (fun q => T.known q.id && !(fixed && expired)) := by
+  rw [List.filter_filter]; congr 1; funext q; unfold collected; exact Bool.and_comm _ _
+
+/-- the last entry for an existing characteristic of an executed request is also the last collected one -/
+theorem lastEntry_collected (fixed expired : Bool) (T : Topo) (qs : List Query) (q : Query)
+    (hl : LastEntry expired qs q) (hk : T.known q.id = true) (hfe : (fixed && expired) = false) :
+    LastBy (fun q : Query => q.id) (qs.filter (collected fixed expired T)) q := by
+  rw [collected_filter]
+  exact LastBy.filter hl _ (by simp [hk, hfe])
+
+/-- an answered entry's characteristic has a last entry -/
+theorem lastEntry_exists (expired : Bool) (qs : List Query) (q : Query) (hq : q ∈ qs)
+    (ha : answered expired q = true) : ∃ b, LastEntry expired qs b ∧ b.id = q.id :=
+  lastBy_exists (fun q : Query => q.id) _ q (List.mem_filter.2 ⟨hq, ha⟩)
+
+/-- split of the running entries around the last entry of a characteristic -/
+theorem running_split (fixed expired : Bool) (T : Topo) (qs : List Query) (q : Query)
+    (hl : LastEntry expired qs q) (hr : runs fixed expired T q = true) :
+    ∃ l1 l2, qs.filter (fun q => answered expired q && runs fixed expired T q) = l1 ++ q :: l2 ∧
+      (∀ z ∈ l2, z.id ≠ q.id) ∧ (Distinct qs → ∀ z ∈ l1, z.id ≠ q.id) := by
+  obtain ⟨l1, l2, he, hno⟩ := (lastBy_split _ _ _).1 hl
+  have hff : qs.filter (fun q => answered expired q && runs fixed expired T q) =
+      (qs.filter (answered expired)).filter (runs fixed expired T) := by
+    rw [List.filter_filter]; congr 1; funext q; exact Bool.and_comm _ _
+  refine ⟨l1.filter (runs fixed expired T), l2.filter (runs fixed expired T), ?_, ?_, ?_⟩
+  · rw [hff, he, List.filter_append, List.filter_cons]; simp [hr]
+  · intro z hz; exact hno z (List.mem_filter.1 hz).1
+  · intro hd z hz hid
+    have hd' : Distinct (l1 ++ q :: l2) := he ▸ hd.filter (answered expired)
+    unfold Distinct at hd'
+    rw [List.map_append, List.nodup_append] at hd'
+    exact hd'.2.2 _ (List.mem_map.2 ⟨z, (List.mem_filter.1 hz).1, rfl⟩) _
+      (List.mem_map.2 ⟨q, List.mem_cons_self .., rfl⟩) hid
+
+theorem storeAll_append (l1 l2 : List Query) (vals : CharId → Val) :
+    storeAll vals (l1 ++ l2) = storeAll (storeAll vals l1) l2 := by
+  induction l1 generalizing vals with
+  | nil => rfl
+  | cons p ps ih => simp only [List.cons_append, storeAll, ih]
 
 /-- everything the request does to / says about one entry, as a function of that entry alone
     (plus the callbacks of its own service and accessory and the expiry decision) -/
@@ -715,23 +1073,24 @@ theorem entry_closed_form (nu : Bool) (T : Topo) (B : Behav) (expired : Bool) (v
     (∀ r, (q.id, r) ∈ (setChars true nu T B expired vals qs).chars ↔
         (answered expired q = true ∧ r = entryRes true expired T B q)) ∧
     (setChars true nu T B expired vals qs).vals q.id =
-        (if (answered expired q && runs true expired q) = true
+        (if (answered expired q && runs true expired T q) = true
          then (match q.valid with | some n => n | none => vals q.id) else vals q.id) ∧
     charCalls (setChars true nu T B expired vals qs).log q.id =
-        (if (answered expired q && runs true expired q) = true then (calledVal q).toList else []) := by
+        (if (answered expired q && runs true expired T q) = true then (calledVal q).toList else []) := by
   refine ⟨?_, ?_, ?_⟩
   · intro r
     rw [mem_chars]
     constructor
-    · rintro ⟨q', hq', ha', hx⟩
+    · rintro ⟨q', hl, hx⟩
+      obtain ⟨hq', ha'⟩ := (lastEntry_of_distinct hd expired q').1 hl
       have hid : q'.id = q.id := (congrArg Prod.fst hx).symm
       have := distinct_inj hd hq hq' hid
       subst this
       exact ⟨ha', congrArg Prod.snd hx⟩
-    · rintro ⟨ha, rfl⟩; exact ⟨q, hq, ha, rfl⟩
+    · rintro ⟨ha, rfl⟩; exact ⟨q, (lastEntry_of_distinct hd expired q).2 ⟨hq, ha⟩, rfl⟩
   · rw [setChars_vals]
-    by_cases hf : (answered expired q && runs true expired q) = true
-    · have hmem : q ∈ qs.filter (fun q => answered expired q && runs true expired q) :=
+    by_cases hf : (answered expired q && runs true expired T q) = true
+    · have hmem : q ∈ qs.filter (fun q => answered expired q && runs true expired T q) :=
         List.mem_filter.2 ⟨hq, hf⟩
       simp only [hf, if_true]
       cases hv : q.valid with
@@ -747,7 +1106,7 @@ theorem entry_closed_form (nu : Bool) (T : Topo) (B : Behav) (expired : Bool) (v
       have := distinct_inj hd hq (List.mem_filter.1 hp).1 hid
       subst this; exact hf (List.mem_filter.1 hp).2
   · rw [setChars_log, charCalls_append, charCalls_pass, List.append_nil]
-    by_cases hf : (answered expired q && runs true expired q) = true
+    by_cases hf : (answered expired q && runs true expired T q) = true
     · simp only [hf, if_true]
       exact charCalls_loop_of_mem _ _ (hd.filter _) (List.mem_filter.2 ⟨hq, hf⟩)
     · simp only [hf, if_false]
@@ -756,30 +1115,80 @@ theorem entry_closed_form (nu : Bool) (T : Topo) (B : Behav) (expired : Bool) (v
       have := distinct_inj hd hq (List.mem_filter.1 hp).1 hid
       subst this; exact hf (List.mem_filter.1 hp).2
 
-/-- invocation counts of the service / accessory callbacks of an entry that is carried out -/
+/-- the callbacks of the service and the accessory of a characteristic that the request reaches
+    (an entry with a value names it, and it exists) are invoked exactly once -/
 theorem upper_calls (nu : Bool) (T : Topo) (B : Behav) (vals : CharId → Val) (qs : List Query) (q : Query)
-    (hq : q ∈ qs) (ha : q.hasValue = true) :
+    (hq : q ∈ qs) (ha : q.hasValue = true) (hk : T.known q.id = true) :
     svcCalls (setChars true nu T B false vals qs).log q.id.aid (T.svc q.id) =
         (if T.svcCb q.id.aid (T.svc q.id) = true
-         then [svcGroup T (upsOf true nu false qs) q.id.aid (T.svc q.id)] else []) ∧
+         then [svcGroup T (upsOf true nu false T qs) q.id.aid (T.svc q.id)] else []) ∧
     accCalls (setChars true nu T B false vals qs).log q.id.aid =
         (if T.accCb q.id.aid = true
-         then [(svcsOf T (upsOf true nu false qs) q.id.aid).map
-                (fun s => (s, svcGroup T (upsOf true nu false qs) q.id.aid s))] else []) ∧
-    (q.id, upValue true nu false q) ∈ svcGroup T (upsOf true nu false qs) q.id.aid (T.svc q.id) ∧
-    T.svc q.id ∈ svcsOf T (upsOf true nu false qs) q.id.aid := by
-  have hups : (q.id, upValue true nu false q) ∈ upsOf true nu false qs := by
-    simp only [upsOf, Bool.and_false, Bool.false_eq_true, if_false, List.mem_map, List.mem_filter]
-    exact ⟨q, ⟨hq, by simp [answered, ha]⟩, rfl⟩
-  have hacc : q.id.aid ∈ accsOf (upsOf true nu false qs) := (mem_accsOf _ _).2 ⟨_, hups, rfl⟩
-  have hsvc : T.svc q.id ∈ svcsOf T (upsOf true nu false qs) q.id.aid :=
-    (mem_svcsOf _ _ _ _).2 ⟨_, hups, rfl, rfl⟩
-  refine ⟨?_, ?_, ?_, hsvc⟩
+         then [(svcsOf T (upsOf true nu false T qs) q.id.aid).map
+                (fun s => (s, svcGroup T (upsOf true nu false T qs) q.id.aid s))] else []) := by
+  have hkey : q.id ∈ (upsOf true nu false T qs).map (·.1) := by
+    rw [mem_upsOf_keys]; exact ⟨q, hq, by simp [collected, answered, ha, hk], rfl⟩
+  obtain ⟨u, hu, hid⟩ := List.mem_map.1 hkey
+  have hacc : q.id.aid ∈ accsOf (upsOf true nu false T qs) := (mem_accsOf _ _).2 ⟨u, hu, by rw [hid]⟩
+  have hsvc : T.svc q.id ∈ svcsOf T (upsOf true nu false T qs) q.id.aid :=
+    (mem_svcsOf _ _ _ _).2 ⟨u, hu, by rw [hid], by rw [hid]⟩
+  refine ⟨?_, ?_⟩
   · rw [setChars_log, svcCalls_append, (upperCalls_loop _ _ _).1, List.nil_append, svcCalls_pass]
     simp [hacc, hsvc]
   · rw [setChars_log, accCalls_append, (upperCalls_loop _ _ 0).2, List.nil_append, accCalls_pass]
     simp [hacc]
-  · simp [svcGroup, List.mem_filter, hups]
+
+/-- the results of one characteristic inside the assembled answer -/
+theorem filter_flatMap_nodup {α β : Type} [DecidableEq α] (l : List α) (f : α → List β) (p : β → Bool) (a : α)
+    (hn : l.Nodup) (hz : ∀ b ∈ l, b ≠ a → (f b).filter p = []) :
+    (l.flatMap f).filter p = if a ∈ l then (f a).filter p else [] := by
+  induction l with
+  | nil => simp
+  | cons b t ih =>
+    simp only [List.nodup_cons] at hn
+    have iht := ih hn.2 (fun b' hb' => hz b' (List.mem_cons_of_mem _ hb'))
+    simp only [List.flatMap_cons, List.filter_append, iht, List.mem_cons]
+    by_cases hba : b = a
+    · subst hba; simp [hn.1]
+    · rw [hz b (List.mem_cons_self ..) hba]
+      have : (a = b) = False := by simp; exact fun h => hba h.symm
+      simp [this]
+
+theorem filter_key_assemble (results : List (CharId × Res)) (c : CharId) :
+    (assemble results).filter (fun x => x.1 = c) = results.filter (fun x => x.1 = c) := by
+  unfold assemble
+  rw [filter_flatMap_nodup _ _ _ c.aid (nodup_firsts _)]
+  · by_cases hm : c.aid ∈ firsts (results.map (fun cr => cr.1.aid))
+    · simp only [hm, if_true, List.filter_filter]
+      congr 1; funext x
+      by_cases hx : x.1 = c <;> simp [hx]
+    · simp only [hm, if_false]
+      symm
+      rw [List.filter_eq_nil_iff]
+      intro x hx hc
+      simp only [decide_eq_true_eq] at hc
+      exact hm ((mem_firsts _ _).2 (List.mem_map.2 ⟨x, hx, by rw [hc]⟩))
+  · intro b _ hne
+    rw [List.filter_filter, List.filter_eq_nil_iff]
+    intro x _ hc
+    simp only [Bool.and_eq_true, decide_eq_true_eq] at hc
+    exact hne (by rw [← hc.2, hc.1])
+
+theorem filter_key_of_nodup_keys {κ α : Type} [DecidableEq κ] (l : List (κ × α))
+    (h : (l.map Prod.fst).Nodup) (k : κ) (v : α) (hm : (k, v) ∈ l) :
+    l.filter (fun x => x.1 = k) = [(k, v)] := by
+  induction l with
+  | nil => cases hm
+  | cons y t ih =>
+    simp only [List.map_cons, List.nodup_cons, List.mem_map, not_exists, not_and] at h
+    rcases List.mem_cons.1 hm with rfl | hm'
+    · have : t.filter (fun x => x.1 = k) = [] := by
+        rw [List.filter_eq_nil_iff]; intro x hx hc
+        simp only [decide_eq_true_eq] at hc
+        exact h.1 x hx hc
+      simp [List.filter_cons, this]
+    · have hne : ¬ y.1 = k := fun e => h.1 (k, v) hm' e.symm
+      simp [List.filter_cons, hne, ih h.2 hm']
 
 /-! ### histories: prepare / advance / write / lose -/
 
